@@ -727,7 +727,7 @@ def _init_axes(axes=None, dims=None, labels=None, shape=None, check_order=True):
     elif isinstance(axes, dict):
         kwaxes = axes
         if isinstance(kwaxes, dict) and dims is None:
-            dims = kwaxes.keys()
+            dims = list(kwaxes.keys()) # (the order of the dict)
         axes = Axes.from_dict(kwaxes, dims=dims, shape=shape, check_order=check_order)
         return axes
 
